@@ -290,6 +290,18 @@ func (r *renderer) stmt(s Stmt, depth int) {
 	case Tagged:
 		r.pending = append(r.pending, v.ID)
 		r.stmt(v.S, depth)
+	case Verbatim:
+		for i, l := range v.Lines {
+			if i == 0 {
+				for _, t := range r.pending {
+					r.LineOf[t] = r.phys + 1
+				}
+				r.pending = r.pending[:0]
+				r.push(strings.Repeat(r.l.indent(), depth) + l)
+			} else {
+				r.push(strings.ReplaceAll(l, "\x01", r.l.indent()))
+			}
+		}
 	case Let:
 		if v.Block {
 			r.emit(depth, "令"+r.l.p("：", ":"))
